@@ -1,0 +1,18 @@
+//go:build verif
+
+package middleware
+
+// Contracts checked by /verif/gocv (comment-only file; see /verif/DESIGN.md §3).
+
+// Virtual-hosted addressing: when the Host header is "<bucket>.<endpoint>[:port]" with a non-empty bucket, the request
+// handed on is the path-style form of the same request (same bucket, same key); any other host leaves the path alone.
+//@ func MakeVirtualHostBucketAddressingMiddleware$1
+//@ mode effects
+//@ requires endpointSuffix == "." + baseEndpoint && r != nil && r.URL != nil
+//@ requires !strings.Contains(r.Host, ":")
+//@ effect[C33:same-resource] every next.ServeHTTP(_, $req)
+//@     where old(r.Host) != baseEndpoint && strings.HasSuffix(old(r.Host), "." + baseEndpoint) && len(old(r.Host)) > len(baseEndpoint) + 1 ==>
+//@         $req.URL.Path == specPathStyle(old(r.Host)[:len(old(r.Host))-len(baseEndpoint)-1], old(r.URL.Path))
+//@ effect[C33:other-hosts-untouched] every next.ServeHTTP(_, $req)
+//@     where old(r.Host) == baseEndpoint || !strings.HasSuffix(old(r.Host), "." + baseEndpoint) ==> $req.URL.Path == old(r.URL.Path)
+
